@@ -198,6 +198,8 @@ impl OpenStreamIndex {
         index: &BTreeMap<StreamId, StreamIndexRecord<Vec<u64>>>,
         bloom: &Bloom<str>,
     ) -> Result<(Mphf<StreamId>, u64), StreamIndexError> {
+        #[cfg(sierradb_verif)]
+        crate::verif::point("index_flush.before", &[2]);
         // Collect all keys from the index as strings
         let keys: Vec<_> = index.keys().cloned().collect();
         let n = keys.len() as u64;
